@@ -1,23 +1,28 @@
 # C17 registry entry: see lib/registry.py for the field meanings
-PROP = {'rule': 'rapid state machine (<= ~25 actions) over the real migration Reconciler: reconcile(job) interleaved with environment events '
-         '(reservation scheduled on the pod\'s node or another / marked unschedulable / expired / deleted / consumed by a workload pod; '
-         'target pod deleted / replaced with a new UID / pending pod scheduled / bound pod ready), fake-clock advances landing on TTL-1s, '
-         'TTL, TTL+1s, controller restarts (fresh assumed cache and reconciler UID over the same API state) and "skip k writes then fail n" '
-         'API write failures (not applied, or applied with the response lost; Evict itself included). 1-2 jobs (user-made, made through '
-         'CreatePodMigrationJob, or pointing at a pre-existing Reservation), modes ReservationFirst / EvictionDirectly (explicit or by '
-         'controller default), 1-2 pods. non-trivial = the job\'s reservation changes state between two reconciles of a Running job, or an '
-         'API write fails right after a successful Evict. distinct = FNV-64 fingerprint of the full history.',
+PROP = {'rule': 'rapid state machine (-rapid.steps=50) over the real migration Reconciler: reconcile(job) interleaved with environment events '
+         '(reservation scheduled on the pod\'s node or another / marked unschedulable / expired / deleted / consumed by a workload pod, '
+         'optionally re-using the name of a vanished pod; target pod deleted / replaced with a new UID / pending pod scheduled / bound pod '
+         'ready; "next healthy step" events), fake-clock advances landing on TTL-1s, TTL, TTL+1s, controller restarts (fresh assumed cache '
+         'and reconciler UID over the same API state) and API failures: "skip k writes then fail n", "the n writes right after the next '
+         'successful Evict fail", "the next Evict is rejected"; failed writes are either not applied or applied with the response lost. '
+         '1-2 jobs (user-made, made through CreatePodMigrationJob, or pointing at a pre-existing Reservation), modes ReservationFirst / '
+         'EvictionDirectly (explicit or by controller default), 1-2 pods of one workload. Half of the cases use the "colocated" profile: two '
+         'reservation-first jobs whose reservations tend to share a node and an eviction-time failure armed from the start. '
+         'non-trivial = the job\'s reservation changes state between two reconciles of a Running job, or an API write fails right after a '
+         'successful Evict. distinct = FNV-64 fingerprint of the full history.',
  'assumptions': ['API = controller-runtime fake client with status subresources for PodMigrationJob and Reservation, plus server-side UID / '
                  'creationTimestamp on create; reads are never stale and never fail (only writes and Evict are failed)',
                  'the reservation interpreter is the real one (reservation.NewInterpreter) over that client; it has no preemption path, so '
                  '"or preemption has completed" is not exercised in this tree',
                  'environment makes only transitions koord-scheduler makes: pending -> unschedulable-marked -> Available(node) -> '
-                 'Succeeded+CurrentOwners in one status update (allocate-once) or Failed/Expired; Succeeded/Failed are final; a replaced pod '
-                 'that lands on a reservation\'s node consumes it in the same step; nothing changes during a Reconcile call',
+                 'Succeeded+CurrentOwners in one status update (allocate-once) or Failed/Expired (assigned reservations only); '
+                 'Succeeded/Failed are final; a pod of the workload that lands on a node holding one of the reservations consumes one of '
+                 'them in the same step; nothing changes during a Reconcile call',
                  'object limiters are switched off (they read the wall clock via rate.Limiter and can only postpone a job); jobs are not '
                  'paused or deleted; Reconcile only (scavenger / arbitrator not driven)',
                  '"an expired job deletes its reservation" is read as: a job failed with reason Timeout leaves no Reservation under the '
-                 'reference persisted in its spec; a Reservation whose reference was never persisted (job update failed) is counted, not asserted'],
+                 'reference persisted in its spec; a Reservation whose reference was never persisted (job update failed) is counted, not asserted',
+                 'a rejected Evict call counts as an API error for the "at most once without API errors" clause'],
  'units': [{'name': 'migration',
             'pkg': 'pkg/descheduler/controllers/migration',
             'files': ['C17/c17_migration_test.go'],
